@@ -33,6 +33,11 @@ inductive Flt where
   | ofBool (b : Bool)
   deriving DecidableEq, Repr, Inhabited
 
+/-- what kind of IEEE value a Python float is (observed by the harness with `math.isfinite` / `math.isnan`) -/
+inductive FCls where
+  | finite | inf | nan
+  deriving DecidableEq, Repr, Inhabited
+
 /-- Python values handed to resolvers (coerced values, declared defaults, enum internal values). -/
 inductive PV where
   | none
@@ -48,25 +53,26 @@ def PV.isNone : PV → Bool | .none => true | _ => false
 
 /-- JSON values of a request's `variables`. Strings and floats carry what Python's own builtins say
     about them (observed by the harness, universally quantified in the theorems):
-    `float`: canonical repr and `int(f)` when `f.is_integer()`;
-    `str`: `int(s, 10)` when it parses, `float(s)` (repr, integral value) when it parses. -/
+    `float`: canonical repr, `int(f)` when `f.is_integer()`, and its class (finite / ±inf / nan);
+    `str`: `int(s, 10)` when it parses, `float(s)` (repr, integral value, class) when it parses. -/
 inductive JV where
   | null
   | bool (b : Bool)
   | int (n : Int)
-  | float (text : String) (integral : Option Int)
-  | str (s : String) (int10 : Option Int) (flt : Option (String × Option Int))
+  | float (text : String) (integral : Option Int) (cls : FCls)
+  | str (s : String) (int10 : Option Int) (flt : Option (String × Option Int × FCls))
   | list (l : List JV)
   | obj (kvs : List (String × JV))
   deriving Repr, Inhabited
 
 def JV.isNull : JV → Bool | .null => true | _ => false
 
-/-- GraphQL value literals (`IntValue` carries the integer its canonical text denotes, `FloatValue` its text). -/
+/-- GraphQL value literals (`IntValue` carries the integer its canonical text denotes, `FloatValue` its text
+    and the class of `float(text)`: `1e999` is +inf). -/
 inductive Lit where
   | null
   | int (n : Int)
-  | float (text : String)
+  | float (text : String) (cls : FCls)
   | str (s : String)
   | bool (b : Bool)
   | enum (name : String)
@@ -136,6 +142,24 @@ def mapE {α β : Type} (f : α → Except Err β) : List α → Except Err (Lis
       | .error e => .error e
       | .ok ys => .ok (y :: ys)
 
+/-- a loop that COLLECTS `CoercionError`s and goes on (`_coerce_list_value`, `_coerce_input_object`,
+    `coerce_variable_values`): it fails at the end if anything was collected, but any OTHER exception raised by a later
+    iteration (RecursionError, OverflowError) escapes at once. `mapE` is the loop that stops at the first error
+    (the list comprehension of `value_from_ast`). -/
+def mapEC {α β : Type} (f : α → Except Err β) : List α → Except Err (List β)
+  | [] => .ok []
+  | x :: xs =>
+    match f x with
+    | .error .coercion =>
+      match mapEC f xs with
+      | .error e => .error e
+      | .ok _ => .error .coercion
+    | .error e => .error e
+    | .ok y =>
+      match mapEC f xs with
+      | .error e => .error e
+      | .ok ys => .ok (y :: ys)
+
 /-! ### scalars.py -/
 
 /-- the final range test of `coerce_int` (translated from the source) -/
@@ -146,8 +170,9 @@ def rangeChecked (n : Int) (result : PV) : R :=
 def coerceInt : JV → R
   | .bool b => rangeChecked (if b then 1 else 0) (.bool b)      -- isinstance(True, int): numeric = maybe_int
   | .int n => rangeChecked n (.int n)
-  | .float _ (some k) => rangeChecked k (.int k)                 -- numeric = int(f); numeric == f
-  | .float _ none => .error .coercion
+  | .float _ (some k) _ => rangeChecked k (.int k)               -- numeric = int(f); numeric == f
+  | .float _ none .inf => .error .internal                       -- int(inf): OverflowError, not caught by ScalarType.parse
+  | .float _ none _ => .error .coercion                          -- numeric != f; int(nan): ValueError
   | .null => .error .coercion
   | .str s i10 flt =>
     if s == "" then .error .coercion
@@ -155,21 +180,31 @@ def coerceInt : JV → R
       | some n => rangeChecked n (.int n)
       | none =>
         match flt with
-        | some (_, some k) => rangeChecked k (.int k)            -- float(s).is_integer()
+        | some (_, some k, _) => rangeChecked k (.int k)         -- float(s).is_integer()
         | _ => .error .coercion
   | .list _ => .error .coercion
   | .obj _ => .error .coercion
 
+/-- the finiteness guard of `coerce_float` (fix X2), as re-extracted from the source: which classes of
+    `numeric = float(maybe_float)` make it raise -/
+def floatGuardRejects : FCls → Bool
+  | .finite => floatRejectsFinite
+  | .inf => floatRejectsInf
+  | .nan => floatRejectsNaN
+
+def floatChecked (c : FCls) (result : PV) : R :=
+  if floatGuardRejects c then .error .coercion else .ok result
+
 /-- `coerce_float` on a JSON value -/
 def coerceFloat : JV → R
   | .null => .error .coercion
-  | .bool b => .ok (.float (.ofBool b))
-  | .int n => .ok (.float (.ofInt n))
-  | .float t _ => .ok (.float (.text t))
+  | .bool b => floatChecked .finite (.float (.ofBool b))
+  | .int n => floatChecked .finite (.float (.ofInt n))
+  | .float t _ c => floatChecked c (.float (.text t))
   | .str s _ flt =>
     if s == "" then .error .coercion
     else match flt with
-      | some (r, _) => .ok (.float (.text r))
+      | some (r, _, c) => floatChecked c (.float (.text r))
       | none => .error .coercion
   | .list _ => .error .coercion                                  -- float([..]) : TypeError
   | .obj _ => .error .coercion
@@ -180,7 +215,7 @@ def pyStr : JV → String
   | .bool true => "True"
   | .bool false => "False"
   | .int n => toString n
-  | .float t _ => t
+  | .float t _ _ => t
   | .str s _ _ => s
   | .list _ => ""
   | .obj _ => ""
@@ -190,7 +225,7 @@ def pyTruthy : JV → Bool
   | .null => false
   | .bool b => b
   | .int n => n != 0
-  | .float _ i => i != some 0
+  | .float _ i _ => i != some 0
   | .str s _ _ => s != ""
   | .list l => !l.isEmpty
   | .obj k => !k.isEmpty
@@ -219,7 +254,7 @@ def pvOfJson : JV → PV
   | .null => .none
   | .bool b => .bool b
   | .int n => .int n
-  | .float t _ => .float (.text t)
+  | .float t _ _ => .float (.text t)
   | .str s _ _ => .str s
   | .list l => .list (pvOfJsonL l)
   | .obj kvs => .dict (pvOfJsonF kvs)
@@ -242,11 +277,11 @@ def kindName : NamedT → String
   | .custom => "<custom>" | .enum _ => "<enum>" | .input _ => "<input>"
 
 def litKind : Lit → String
-  | .int _ => "int" | .float _ => "float" | .str _ => "str" | .bool _ => "bool"
+  | .int _ => "int" | .float _ _ => "float" | .str _ => "str" | .bool _ => "bool"
   | .null => "null" | .enum _ => "enum" | .list _ => "list" | .obj _ => "obj" | .var _ => "var"
 
 def isScalarLit : Lit → Bool
-  | .int _ => true | .float _ => true | .str _ => true | .bool _ => true
+  | .int _ => true | .float _ _ => true | .str _ => true | .bool _ => true
   | _ => false
 
 /-- `_typed_coerce(coerce_, *types)`: node classes outside the table raise `TypeError` (→ ScalarParsingError) -/
@@ -261,7 +296,7 @@ def parseLiteral (k : NamedT) (l : Lit) : R :=
   | .custom =>
     match l with
     | .int n => .ok (.str (toString n))      -- IntValue.value is the TEXT
-    | .float t => .ok (.str t)
+    | .float t _ => .ok (.str t)
     | .str s => .ok (.str s)
     | .bool b => .ok (.bool b)
     | _ => .error .internal
@@ -269,8 +304,8 @@ def parseLiteral (k : NamedT) (l : Lit) : R :=
     if admits k l then
       match k, l with
       | .int, .int n => rangeChecked n (.int n)            -- coerce_int("<digits>")
-      | .float, .float t => .ok (.float (.text t))         -- float("<text>")
-      | .float, .int n => .ok (.float (.ofInt n))          -- float("<digits>")
+      | .float, .float t c => floatChecked c (.float (.text t))     -- coerce_float("<text>")
+      | .float, .int n => floatChecked .finite (.float (.ofInt n))  -- coerce_float("<digits>")
       | .string, .str s => .ok (.str s)
       | .boolean, .bool b => .ok (.bool b)
       | .id, .str s => .ok (.str s)
@@ -302,6 +337,35 @@ def fieldLoop {α : Type} (get : String → Option α) (rec : Ty → α → R) :
         | .error e => .error e
         | .ok r => .ok ((f.pyName, pv) :: r)
 
+/-- the field loop of `_coerce_input_object`: same as `fieldLoop`, but errors are collected (see `mapEC`) -/
+def fieldLoopC {α : Type} (get : String → Option α) (rec : Ty → α → R) : List InField → Except Err (List (String × PV))
+  | [] => .ok []
+  | f :: fs =>
+    match get f.name with
+    | none =>
+      match f.default with
+      | some d =>
+        match fieldLoopC get rec fs with
+        | .error e => .error e
+        | .ok r => .ok ((f.pyName, d) :: r)
+      | none =>
+        if f.type.isNonNull then
+          match fieldLoopC get rec fs with
+          | .error e => .error e
+          | .ok _ => .error .coercion
+        else fieldLoopC get rec fs
+    | some v =>
+      match rec f.type v with
+      | .error .coercion =>
+        match fieldLoopC get rec fs with
+        | .error e => .error e
+        | .ok _ => .error .coercion
+      | .error e => .error e
+      | .ok pv =>
+        match fieldLoopC get rec fs with
+        | .error e => .error e
+        | .ok r => .ok ((f.pyName, pv) :: r)
+
 /-- every supplied key is a declared field (`fieldname not in type_.field_map` ⇒ error) -/
 def allKnown {α : Type} (fields : List InField) (kvs : List (String × α)) : Bool :=
   kvs.all fun p => fields.any fun f => f.name == p.1
@@ -312,7 +376,7 @@ def allKnown {α : Type} (fields : List InField) (kvs : List (String × α)) : B
 def coerceListValue (rec : Ty → JV → R) (t : Ty) (v : JV) : R :=
   match v with
   | .list l =>
-    match mapE (rec t) l with
+    match mapEC (rec t) l with
     | .error e => .error e
     | .ok r => .ok (.list r)
   | _ =>
@@ -324,7 +388,7 @@ def coerceListValue (rec : Ty → JV → R) (t : Ty) (v : JV) : R :=
 def coerceInputObject (rec : Ty → JV → R) (fields : List InField) (v : JV) : R :=
   match v with
   | .obj kvs =>
-    match fieldLoop (fun k => lookupLast k kvs) rec fields with
+    match fieldLoopC (fun k => lookupLast k kvs) rec fields with
     | .error e => .error e
     | .ok r => if allKnown fields kvs then .ok (.dict r) else .error .coercion
   | _ => .error .coercion
@@ -441,6 +505,10 @@ def coerceVariableValues (reg : Reg) (fuel : Nat) (variables : List (String × J
   | [] => .ok []
   | d :: ds =>
     match coerceVariable reg fuel variables d with
+    | .error .coercion =>                      -- errors.append(...): the loop goes on, `raise VariablesCoercionError` at the end
+      match coerceVariableValues reg fuel variables ds with
+      | .error e => .error e
+      | .ok _ => .error .coercion
     | .error e => .error e
     | .ok o =>
       match coerceVariableValues reg fuel variables ds with
